@@ -37,8 +37,8 @@ def make_spec(name, template):
 
 def bounds(tier):
     if tier == "thorough":
-        return {"N": 4, "profile": {"use_ws_body": False}, "double": 3}
-    return {"N": 3, "profile": {"use_ws_body": False}, "N_core": 4, "double": 0}
+        return {"N": 4, "profile": {"use_ws_body": False}, "double": 3, "dyn_max": 4}
+    return {"N": 3, "profile": {"use_ws_body": False}, "N_core": 4, "double": 0, "dyn_max": 3}
 
 
 def nodelists(nodes, path=()):
@@ -89,7 +89,7 @@ def has_fill(region):
     return any(n[0] == "Fill" or (n[0] in ("If",) and has_fill(n[2])) or (n[0] == "For" and has_fill(n[3])) for n in region)
 
 
-def splits(template):
+def splits(template, dynamic=False):
     """yields (variant, main_nodes, {locmem name: source}) for every split of one template.
     main_nodes: the template that replaces T (a tuple of nodes, possibly a single Raw node)"""
     for path, nl in nodelists(template):
@@ -98,18 +98,18 @@ def splits(template):
                 R = nl[i:j]
                 if has_fill(R):
                     continue
-                r_src = print_nodes(R)
+                r_src = print_nodes(R, dynamic)
                 # V1: block in base holds R, child overrides nothing
                 base = replace_at(template, path, i, j, ("Raw", "{% block r %}" + r_src + "{% endblock %}"))
-                yield "V1", (("Raw", '{% extends "c10base" %}'),), {"c10base": print_nodes(base)}
+                yield "V1", (("Raw", '{% extends "c10base" %}'),), {"c10base": print_nodes(base, dynamic)}
                 # V2: override
                 base2 = replace_at(template, path, i, j, ("Raw", "{% block r %}XX {% endblock %}"))
-                yield "V2", (("Raw", '{% extends "c10base" %}{% block r %}' + r_src + "{% endblock %}"),), {"c10base": print_nodes(base2)}
+                yield "V2", (("Raw", '{% extends "c10base" %}{% block r %}' + r_src + "{% endblock %}"),), {"c10base": print_nodes(base2, dynamic)}
                 # V3: block.super
                 k = 1 if len(R) >= 2 else len(R)
-                r1, r2 = print_nodes(R[:k]), print_nodes(R[k:])
+                r1, r2 = print_nodes(R[:k], dynamic), print_nodes(R[k:], dynamic)
                 base3 = replace_at(template, path, i, j, ("Raw", "{% block r %}" + r1 + "{% endblock %}"))
-                yield "V3", (("Raw", '{% extends "c10base" %}{% block r %}{{ block.super }}' + r2 + "{% endblock %}"),), {"c10base": print_nodes(base3)}
+                yield "V3", (("Raw", '{% extends "c10base" %}{% block r %}{{ block.super }}' + r2 + "{% endblock %}"),), {"c10base": print_nodes(base3, dynamic)}
                 # V4: include
                 main4 = replace_at(template, path, i, j, ("Raw", '{% include "c10inc" %}'))
                 yield "V4", main4, {"c10inc": r_src}
@@ -119,15 +119,15 @@ def splits(template):
                 r_super, r_flat = insert_in_first_body(R, ("Raw", "{{ block.super }}")), insert_in_first_body(R, ("T", "SS "))
                 if r_super is not None:
                     base5 = replace_at(template, path, i, j, ("Raw", "{% block r %}SS {% endblock %}"))
-                    flat5 = replace_at(template, path, i, j, ("Raw", print_nodes(r_flat)))
-                    yield "V5", (("Raw", '{% extends "c10base" %}{% block r %}' + print_nodes(r_super) + "{% endblock %}"),), {"c10base": print_nodes(base5), "__flat__": flat5}
+                    flat5 = replace_at(template, path, i, j, ("Raw", print_nodes(r_flat, dynamic)))
+                    yield "V5", (("Raw", '{% extends "c10base" %}{% block r %}' + print_nodes(r_super, dynamic) + "{% endblock %}"),), {"c10base": print_nodes(base5, dynamic), "__flat__": flat5}
 
 
-def render(h, prog, locmem):
+def render(h, prog, locmem, dynamic=False):
     boot.LOCMEM_TEMPLATES.clear()
     boot.LOCMEM_TEMPLATES.update(locmem)
-    h.install(prog)
-    obs = h.render_page(prog)
+    h.install(prog, dynamic=dynamic)
+    obs = h.render_page(prog, dynamic=dynamic)
     boot.clear_render_registries()
     if obs[0] == "ok":
         return ("ok", strip_markers(obs[1]))
@@ -142,14 +142,14 @@ def rename(locmem, suffix):
     return out
 
 
-def families(prog, double):
+def families(prog, double, dynamic=False):
     """yields (description, split program, locmem templates)"""
     targets = [("page", prog.page)] + [(n, c.template) for n, c in prog.comps.items()]
     singles = []
     for tname, tpl in targets:
         if not tpl:
             continue
-        for variant, main, locmem in splits(tpl):
+        for variant, main, locmem in splits(tpl, dynamic):
             flat_tpl = locmem.pop("__flat__", None)
 
             def with_tpl(t):
@@ -210,7 +210,7 @@ def classify(desc, prog, mode):
 
 
 def worker(w, W, payload):
-    pfkw, N, skip, mode, double = payload
+    pfkw, N, skip, mode, (double, dyn_max) = payload
     boot.set_components_setting(context_behavior=mode)
     gen = Gen(Profile(**pfkw))
     h = Harness()
@@ -223,14 +223,17 @@ def worker(w, W, payload):
         size_ = prog_size(prog)
         if skip and size_ <= skip:
             continue
-        flat = render(h, prog, {})
-        agg.transitions += 1
         nfam = 0
-        for desc, p2, locmem, ref_prog in families(prog, double and size_ <= double):
+        for dyn in ((False, True) if size_ <= dyn_max else (False,)):
+          flat = render(h, prog, {}, dyn)
+          agg.transitions += 1
+          for desc, p2, locmem, ref_prog in families(prog, double and size_ <= double and not dyn, dyn):
+            if dyn:
+                desc = desc.replace(":", ":dynamic-", 1)
             nfam += 1
             agg.states += 1
-            flat_ = flat if ref_prog is None else render(h, ref_prog, {})
-            got = render(h, p2, locmem)
+            flat_ = flat if ref_prog is None else render(h, ref_prog, {}, dyn)
+            got = render(h, p2, locmem, dyn)
             agg.transitions += 1
             agg.validated += 1
             agg.expected[desc.split(":")[-1]] += 1
@@ -261,7 +264,7 @@ def run_part(ctx):
         parts.append(("core", CORE, b["N_core"], b["N"]))
     for label_, pfkw, N, skip in parts:
         for mode in ("django", "isolated"):
-            agg = par.run_sharded(worker, (pfkw, N, skip, mode, b["double"]))
+            agg = par.run_sharded(worker, (pfkw, N, skip, mode, (b["double"], b.get("dyn_max", 0))))
             ev.add_part(f"compose_{label_}_N{N}_{mode}", states=agg.states, transitions=agg.transitions, validated=agg.validated, nontrivial=agg.nontrivial,
                         observed_distinct=len(agg.observed), expected=agg.expected, bound={"N": N, "profile": label_, "double_splits_up_to_size": b["double"]},
                         samples=agg.samples[:1])
@@ -279,18 +282,19 @@ def replay(ctx, case):
     spec = case["spec"]
     prog = Program(retuple(spec["page"]), {n: make_spec(n, retuple(t)) for n, t in spec["comps"].items()}, dict(PAGE_CTX))
     h = Harness()
-    flat = render(h, prog, {})
+    dyn = ":dynamic-" in case["desc"]
+    flat = render(h, prog, {}, dyn)
     ok = True
-    for desc, p2, locmem, ref_prog in families(prog, True):
-        if desc != case["desc"]:
+    for desc, p2, locmem, ref_prog in families(prog, not dyn, dyn):
+        if (desc.replace(":", ":dynamic-", 1) if dyn else desc) != case["desc"]:
             continue
         if ref_prog is not None:
-            flat = render(h, ref_prog, {})
-        got = render(h, p2, locmem)
+            flat = render(h, ref_prog, {}, dyn)
+        got = render(h, p2, locmem, dyn)
         print("split:", desc)
-        print("page:", p2.page_source())
+        print("page:", p2.page_source(dyn))
         for n, c in p2.comps.items():
-            print(f"comp {n}:", c.source())
+            print(f"comp {n}:", c.source(dyn))
         for k, v in locmem.items():
             print(f"template {k}:", v)
         print("family renders:   ", got)
